@@ -5,6 +5,7 @@
 #                      loop variable, operands as literals) vs oracle/num for (extracted IM and S), values and their types
 #  property-level    : Go vs S on the exhaustive (start, limit, step) lattice (the lattice is the search)
 import json
+import os
 
 from lib import vlib
 from lib.props import C02 as N
@@ -48,6 +49,9 @@ def known_class(a, b, c, go, im, s):
     int_loop = N.is_int(a) and N.is_int(step)
     if is_nan(b):
         return "C16-nan-limit"
+    INF, NINF = "F7ff0000000000000", "Ffff0000000000000"
+    if is_nan(step) or is_nan(a) or (a, step) in ((INF, NINF), (NINF, INF)):
+        return "C16-nan-value"
     if int_loop and b == P63 and N.val_int(step) < 0 and N.val_int(a) >= M63 - 512:
         return "C16-limit-2p63-negative-step"
     if not int_loop and N.is_int(b) and abs(N.val_int(b)) > (1 << 53) and not is_nan(a) and not is_nan(step):
@@ -63,7 +67,9 @@ def parse_out(line):
 def run(tier, seed):
     ck = vlib.Check("C16", tier, seed, level="proof")
     ok_obl = ck.obligations(PROP, clean=False)
-    gvh, err = ck.build_gvh(pkg="./cmd/gvh-num", name="gvh_num")
+    # VERIF_NUM_OVERLAY / VERIF_NUM_TAG: mutation experiments only (go build -overlay, separate binary name)
+    gvh, err = ck.build_gvh(pkg="./cmd/gvh-num", name="gvh_num" + os.environ.get("VERIF_NUM_TAG", ""),
+                            overlay=os.environ.get("VERIF_NUM_OVERLAY"))
     if gvh is None:
         ck.violation("harness does not build against /repo", {"kind": "build", "stderr": err[-3000:]}, no_input=True)
         return ck.finish("n/a", TRUSTED, [])
